@@ -39,7 +39,37 @@ func takeSnap(o *object, ctxs ...context.Context) recSnap {
 		return recSnap{}
 	}
 	lines, n, fail := compose.VerifC09Snapshot(roots...)
+	// readable paths: root<i> -> what it is
+	for i, r := range roots {
+		from, to := fmt.Sprintf("root%d", i), rootLabel(r)
+		for j, l := range lines {
+			if strings.HasPrefix(l, from) && (len(l) == len(from) || !(l[len(from)] >= '0' && l[len(from)] <= '9')) {
+				lines[j] = to + l[len(from):]
+			}
+		}
+	}
 	return recSnap{lines, n, fail}
+}
+
+func rootLabel(r any) string {
+	t := fmt.Sprintf("%T", r)
+	switch {
+	case strings.Contains(t, "runnablePacker"):
+		return "<compiled runnable>"
+	case strings.Contains(t, "compose.Graph[") || strings.Contains(t, "compose.Chain[") || strings.Contains(t, "compose.Workflow["):
+		return "<builder>"
+	case strings.Contains(t, "react.Agent"):
+		return "<react agent>"
+	case strings.Contains(t, "host.MultiAgent"):
+		return "<host multi-agent>"
+	case strings.Contains(t, "ToolsNode") && !strings.HasPrefix(t, "[]"):
+		return "<tools node>"
+	case strings.HasPrefix(t, "[]"):
+		return "<option values shared by all calls " + t + ">"
+	case strings.Contains(t, "context.") || strings.Contains(t, "Ctx"):
+		return "<parent context shared by all calls>"
+	}
+	return "<" + t + ">"
 }
 
 // diffSnap lists (at most 4) leaves that differ between two snapshots of the same object.
@@ -62,8 +92,18 @@ func diffSnap(a, b recSnap) []string {
 		if a.lines[i] != b.lines[i] {
 			pa, va := split(a.lines[i])
 			pb, vb := split(b.lines[i])
+			// an interface that was nil and now holds a value renders with a longer path
+			base := func(p string) string {
+				if i := strings.LastIndex(p, "]("); i >= 0 {
+					return p[:i+1]
+				}
+				return p
+			}
 			if pa == pb {
 				out = append(out, fmt.Sprintf("%s: %s before, %s after", pa, va, vb))
+			} else if base(pa) == base(pb) {
+				out = append(out, fmt.Sprintf("%s: %s before, %s after", base(pa), va, strings.TrimPrefix(pb, base(pb))+" = "+vb))
+				return out
 			} else {
 				// the structure changed (a slice grew, a map got an entry): everything after
 				// this point is shifted, report the first place only
